@@ -1,12 +1,12 @@
 /-
 "No idle wait" (C03), part A: two invariants of the base system that hold for ANY order of event delivery.
 
-* `sI_W1` — the completion notice (the notice of the LAST output) of a task that has run and is still in flight
-  is on its way to the controller (pending in the environment or in the inbox);
+* `sI_W1` — an output notice of a task that has run and is still in flight is on its way to the controller (pending
+  in the environment or in the inbox); a corollary of Tier P and Tier L (`sI_W1_of`);
 * `sI_W2` — every input of a queued task is on the task's host or an outstanding transfer will bring it there.
 
-Both were validated on random walks of the executable model (≈ 530 000 states, FIFO and any-order) before being
-proved. Part B (`SchedIdleB.lean`) has the fetch pipeline and the phase facts, `SchedIdle.lean` the theorems.
+Both were validated on random walks of the executable model (≈ 530 000 states, FIFO and any-order; W1 in its present
+form on 160 000 more) before being proved. Part B (`SchedIdleB.lean`) has the fetch pipeline and the phase facts, `SchedIdle.lean` the theorems.
 -/
 import EkwVerif.Lemmas.SchedBound
 
@@ -215,220 +215,42 @@ theorem sI_envStep_io (f : Sem) (j : Job) (e e' : Env) (i : Nat) (h : envStep f 
           cases hp
           simp
 
-/-- completion: the notice of a task's last output removes the task from `ongoing` -/
-theorem sI_notify_last (j : Job) (c c' : Ctl) (w : Worker) (ds : Ds) (hl : j.isLast ds = true)
-    (h : notifyEvent j c (.pubW w ds) = .ok c') : c'.ongoing = c.ongoing.erase (w, ds.task) := by
-  simp only [notifyEvent, hl, if_true] at h
-  split at h
-  · cases h
-  · rename_i c2 hc2
-    have e := completeInputs_ongoing _ _ _ _ _ hc2
-    split at h
-    · simp only [Except.ok.injEq] at h
-      subst h
-      simp [e]
-    · cases h
+/-! ### W1: a notice of a task in flight that has run is on its way -/
 
-/-! ### W1: the completion notice of a task in flight that has run is on its way -/
-
+/-- a task that has run and is still in flight has an output notice on its way to the controller (in the environment
+or in the inbox) — not necessarily the LAST output's: the notices may arrive in any order and the task stays in flight
+until all of them have been processed -/
 def sI_W1 (j : Job) (s : Sys) : Prop :=
-  ∀ w t, s.inFlight w t → s.env.ran t = true → Event.pubW w ⟨t, j.nOut t - 1⟩ ∈ s.allEv
+  ∀ w t, s.inFlight w t → s.env.ran t = true → ∃ k, k < j.nOut t ∧ Event.pubW w ⟨t, k⟩ ∈ s.allEv
 
-theorem sI_W1_mono {j : Job} {s s' : Sys} (h : sI_W1 j s) (hfl : ∀ w t, s'.inFlight w t → s.inFlight w t)
-    (hran : s'.env.ran = s.env.ran) (hev : ∀ ev, ev ∈ s.allEv → ev ∈ s'.allEv) : sI_W1 j s' := by
-  intro w t hf hr
-  rw [hran] at hr
-  exact hev _ (h w t (hfl w t hf) hr)
+/-- W1 follows from the base invariant (Tier P: completion ⇔ all notices processed) and Tier L (no notice is lost) -/
+theorem sI_W1_of (f : Sem) (j : Job) (cl : Cluster) (s : Sys) (hA : InvAll f j cl s) (hL : InvLive j cl s) :
+    sI_W1 j s := by
+  intro w t hf hran
+  have hlt := hA.h2.flight_valid w t hf
+  have hnd := hA.h2.flight_not_done w t hf
+  have hiff := hA.hP.done_iff t hlt
+  have hex : ∃ k, k < j.nOut t ∧ s.ctl.published ⟨t, k⟩ = false := by
+    apply Classical.byContradiction
+    intro hno
+    have hall : ∀ k, k < j.nOut t → s.ctl.published ⟨t, k⟩ = true := by
+      intro k hk
+      cases hp : s.ctl.published ⟨t, k⟩ with
+      | true => rfl
+      | false => exact absurd ⟨k, hk, hp⟩ hno
+    have := hiff.mpr hall
+    rw [hnd] at this; cases this
+  obtain ⟨k, hk, hp⟩ := hex
+  rcases hL.notice t hran k hk with h | ⟨w', h⟩
+  · rw [hp] at h; cases h
+  · have hf' := hA.h2.ev_flight w' ⟨t, k⟩ h
+    have hww : w' = w := hA.h2x.uniq w' w t hf' hf
+    subst hww
+    exact ⟨k, hk, h⟩
 
-theorem sI_W1_init (j : Job) (cl : Cluster) : sI_W1 j (Sys.init j cl) := by
-  intro w t hf
-  simp [Sys.init, initCtl, Sys.inFlight, Sys.todoPairs] at hf
-
-theorem sI_W1_step (f : Sem) (j : Job) (cl : Cluster) (s s' : Sys) (st : Step) (wf : WF j cl)
-    (hA : InvAll f j cl s) (h : sI_W1 j s) (hs : step f j cl s st = some s') (hnc : s'.phase ≠ .crashed) :
-    sI_W1 j s' := by
-  by_cases hc : sI_ctrlOnly st = true
-  · obtain ⟨e1, e2, e3, e4⟩ := sI_ctrl_step f j cl s s' st hA.h1 hc hs
-    refine sI_W1_mono h ?_ (by rw [e2]) ?_
-    · intro w t; simp only [Sys.inFlight, Sys.todoPairs, e1, e4]; exact id
-    · intro ev; simp only [Sys.allEv, e2, e3]; exact id
-  cases st with
-  | enter => simp [sI_ctrlOnly] at hc
-  | endAssign => simp [sI_ctrlOnly] at hc
-  | endPlan => simp [sI_ctrlOnly] at hc
-  | endFlushF => simp [sI_ctrlOnly] at hc
-  | endFlush => simp [sI_ctrlOnly] at hc
-  | endNotify => simp [sI_ctrlOnly] at hc
-  | assign a =>
-    simp only [step] at hs
-    split at hs; · cases hs
-    split at hs
-    · cases hs
-    · cases hs; exact (hnc rfl).elim
-    · rename_i c prep hr
-      cases hs
-      obtain ⟨_, hd0, _, hcomp, _, _, hong, _⟩ := once_assignOne j cl s.ctl c a prep hA.h1.once hr
-      obtain ⟨_, _, hpend, _⟩ := i2b_applyCmds_frame j cl (actCmds a prep) s.env
-      have hran := (i2b_applyCmds_frame j cl (actCmds a prep) s.env).1
-      intro w t hf hr'
-      simp only [hran] at hr'
-      have hdisp := (hA.h2.ran_disp t hr').1
-      have hold : s.inFlight w t := by
-        rcases hf with hf | hf
-        · left; rw [hong] at hf; exact hf
-        · simp only [Sys.todoPairs, List.map_append, List.map_cons, List.map_nil, List.mem_append, List.mem_singleton] at hf
-          rcases hf with hf | hf
-          · right; exact hf
-          · exfalso
-            have : t = a.task := (Prod.mk.inj hf).2
-            subst this
-            omega
-      have := h w t hold hr'
-      simp only [Sys.allEv, hpend] at this ⊢
-      exact this
-  | plan1 =>
-    simp only [step] at hs
-    split at hs; · cases hs
-    split at hs; · cases hs
-    rename_i a prep rest htodo
-    split at hs
-    · cases hs
-    · cases hs; exact (hnc rfl).elim
-    · rename_i c hr
-      cases hs
-      obtain ⟨_, _, _, _, _, hong, _⟩ := planOne_frames j s.ctl c a prep hr
-      refine sI_W1_mono h ?_ rfl (fun ev hev => hev)
-      intro w t hf
-      rcases hf with hf | hf
-      · rw [hong] at hf
-        rcases List.mem_append.mp hf with hf | hf
-        · exact Or.inl hf
-        · right
-          simp only [List.mem_singleton] at hf
-          simp only [Sys.todoPairs, htodo, List.map_cons, List.mem_cons]
-          exact Or.inl hf
-      · right
-        simp only [Sys.todoPairs, htodo, List.map_cons, List.mem_cons] at hf ⊢
-        exact Or.inr hf
-  | flushF1 =>
-    simp only [step] at hs
-    split at hs; · cases hs
-    split at hs; · cases hs
-    cases hs
-    refine sI_W1_mono h ?_ (by simp [applyCmd]) ?_
-    · intro w t hf
-      simpa [Sys.inFlight, Sys.todoPairs] using hf
-    · intro ev hev
-      simpa [Sys.allEv, applyCmd] using hev
-  | flushP1 =>
-    simp only [step] at hs
-    split at hs; · cases hs
-    split at hs; · cases hs
-    split at hs
-    · cases hs
-    · cases hs; exact (hnc rfl).elim
-    · rename_i c cmds hr
-      cases hs
-      have hong := purgeHosts_ongoing _ _ _ _ _ _ hr
-      obtain ⟨hran, _, hpend, _⟩ := i2b_applyCmds_frame j cl cmds s.env
-      refine sI_W1_mono h ?_ hran ?_
-      · intro w t hf
-        simpa [Sys.inFlight, Sys.todoPairs, hong] using hf
-      · intro ev hev
-        simpa [Sys.allEv, hpend] using hev
-  | recv evs =>
-    simp only [step] at hs
-    split at hs; · cases hs
-    rename_i hc0
-    simp only [bne_iff_ne, ne_eq, Bool.or_eq_true, not_or, Decidable.not_not] at hc0
-    split at hs; · cases hs
-    rename_i pend hte
-    cases hs
-    have hib : s.inbox = [] := hA.h2.inbox_phase (by simp [hc0.1]) (by simp [hc0.1])
-    obtain ⟨_, hran, _, _, hpend, _⟩ := i2b_markDelivered_frame evs { s.env with pending := pend }
-    refine sI_W1_mono h (fun w t hf => hf) hran ?_
-    intro ev hev
-    simp only [Sys.allEv, hib, List.nil_append] at hev
-    simp only [Sys.allEv, hpend]
-    exact (i3_takeEvents_perm evs _ _ hte).mem_iff.mpr hev
-  | notify1 =>
-    simp only [step] at hs
-    split at hs; · cases hs
-    rename_i hc0
-    have hp : s.phase = .notifying := by simpa using hc0
-    split at hs; · cases hs
-    rename_i ev rest hin
-    split at hs
-    · cases hs
-    · cases hs; exact (hnc rfl).elim
-    · rename_i c hr
-      cases hs
-      have htodo : s.todo = [] := hA.h1.todo_phase (by simp [hp]) (by simp [hp]) (by simp [hp])
-      obtain ⟨_, hw⟩ := notifyEvent_workers j s.ctl c ev hr
-      have hsub : ∀ p, p ∈ c.ongoing → p ∈ s.ctl.ongoing := by
-        rcases hw with ⟨_, e⟩ | ⟨w, t, _, e, _⟩
-        · intro p hp'; rw [e] at hp'; exact hp'
-        · intro p hp'; rw [e] at hp'; exact List.mem_of_mem_erase hp'
-      intro w t hf hran
-      have hf0 : (w, t) ∈ c.ongoing := by
-        rcases hf with hf | hf
-        · exact hf
-        · simp [Sys.todoPairs, htodo] at hf
-      have hfs : s.inFlight w t := Or.inl (hsub _ hf0)
-      have hmem := h w t hfs hran
-      simp only [Sys.allEv, hin, List.cons_append, List.mem_cons] at hmem
-      rcases hmem with heq | hmem
-      · exfalso
-        subst heq
-        have hlt := hA.h2.flight_valid w t hfs
-        have hn := wf.nout t hlt
-        have hl : j.isLast ⟨t, j.nOut t - 1⟩ = true := by
-          simp only [Job.isLast, beq_iff_eq]; omega
-        have e := sI_notify_last j s.ctl c w _ hl hr
-        rw [e] at hf0
-        exact (List.Nodup.not_mem_erase (sI_ongoing_nodup hA.h2x)) hf0
-      · exact hmem
-  | env es =>
-    simp only [step] at hs
-    split at hs; · cases hs
-    cases he : envStep f j s.env es with
-    | none => simp [he] at hs
-    | some e =>
-      simp only [he, Option.map_some, Option.some.injEq] at hs
-      subst hs
-      cases es with
-      | run w0 t0 =>
-        obtain ⟨hq, _, hran, _, hpend, _⟩ := i2a_envStep_run f j s.env e w0 t0 he
-        intro w t hf hr
-        have hf' : s.inFlight w t := hf
-        simp only [hran] at hr
-        by_cases htt : t = t0
-        · subst htt
-          have hfq := hA.h1.queued_flight w0 t hq
-          have hww : w = w0 := hA.h2x.uniq w w0 t hf' hfq
-          subst hww
-          have hlt := hA.h2.flight_valid w t hf'
-          have hn := wf.nout t hlt
-          simp only [Sys.allEv, hpend]
-          apply List.mem_append_right
-          apply List.mem_append_right
-          refine List.mem_map.mpr ⟨⟨t, j.nOut t - 1⟩, ?_, rfl⟩
-          rw [i3_mem_outputsOf]
-          exact ⟨rfl, by simp only; omega⟩
-        · rw [upd_other _ _ _ _ htt] at hr
-          have := h w t hf' hr
-          simp only [Sys.allEv, hpend] at this ⊢
-          rcases List.mem_append.mp this with h1 | h1
-          · exact List.mem_append_left _ h1
-          · exact List.mem_append_right _ (List.mem_append_left _ h1)
-      | io i =>
-        obtain ⟨o, _, _, _, hran, hpm, _⟩ := sI_envStep_io f j s.env e i he
-        refine sI_W1_mono h (fun w t hf => hf) hran ?_
-        intro ev hev
-        simp only [Sys.allEv] at hev ⊢
-        rcases List.mem_append.mp hev with h1 | h1
-        · exact List.mem_append_left _ h1
-        · exact List.mem_append_right _ (hpm ev h1)
+theorem sI_W1_reachable (f : Sem) (j : Job) (cl : Cluster) (wf : WF j cl) (s : Sys) (hr : Reachable f j cl s) :
+    sI_W1 j s :=
+  sI_W1_of f j cl s (invAll_reachable f j cl wf s hr) (sL_reachable f j cl wf s hr)
 
 /-! ### W2: the inputs of a queued task are present on its host or in transfer to it -/
 
